@@ -434,7 +434,7 @@ func verifCanary(label string, cond bool) {}
 // the signer keeps nothing between calls (frame: nothing of the signer is written; a retained hash state
 // would make the second signature one over both messages).
 //@ func (*PKCS1v15).Signature
-//@   props C09 C15
+//@   props C15 C09
 //@   requires s != nil
 //@   assigns nothing
 //@   ensures [C09:rsa-sign] result1 == nil ==> s.PrivateKey != nil && rsa.signedKey(result0) == s.PrivateKey &&
@@ -442,7 +442,7 @@ func verifCanary(label string, cond bool) {}
 //@   ensures [C09:error-nothing] result1 != nil ==> len(result0) == 0
 
 //@ func (*RSAPSS).Signature
-//@   props C09 C15
+//@   props C15 C09
 //@   requires s != nil
 //@   assigns nothing
 //@   ensures [C09:rsa-sign] result1 == nil ==> s.PrivateKey != nil && rsa.signedKey(result0) == s.PrivateKey &&
